@@ -14,6 +14,7 @@ RULE = (
     "compared with a hand-written glob matcher; all slices s[i:j]; escape_and_quote_field for every name x field setting. "
     "non-trivial = string containing a backslash, wildcard, quote or configured metacharacter; distinct by (sub-check, string)."
 )
+RULE += (" " + "Quoting modes: always / values that are not a plain word / only values with whitespace (a bare quote character in an unquoted literal counts as metacharacter). The same string object is rendered by to_regex() for the default target, a target that additionally escapes '/', and the default target again; the regular expression is also written into a '/'-delimited literal and decoded.")
 ASSUMPTIONS = [
     "target-language decoding uses the most lenient rules (escape + non-escapable char = literal escape char)",
     "Python's re module defines regular-expression semantics",
